@@ -7,6 +7,7 @@ TReset == /\ Ev.e = "Reset"
           /\ st' = [i \in Thr |-> "none"] /\ kind' = [i \in Thr |-> ""] /\ tid' = [i \in Thr |-> 0 - 1]
           /\ nreg' = [i \in Thr |-> 0] /\ ncb' = [i \in Thr |-> <<>>] /\ joined' = [i \in Thr |-> FALSE] /\ mainTid' = 0
           /\ once' = [n \in Onces |-> "no"] /\ jto' = WZero /\ jt0' = WZero
+          /\ part' = [i \in Thr |-> "no"] /\ snap' = {}
 TSetup == Ev.e = "Setup" /\ mainTid' = Ev.main /\ UNCHANGED <<st, kind, tid, nreg, ncb, joined, once>>
 TLaunch == Ev.e = "Launch" /\ Launch(Ev.thr, Ev.kind)
 (* launch succeeds (a cpu that cannot be used is not an error: the library launches unpinned); the thread object *)
@@ -19,10 +20,16 @@ TAtExitReg == Ev.e = "AtExitReg" /\ AtExitReg(Ev.thr, Ev.idx, Ev.rc)
 TFnEnd == Ev.e = "FnEnd" /\ FnEnd(Ev.thr)
 TAtExit == Ev.e = "AtExit" /\ AtExit(Ev.thr, Ev.idx, Ev.on)
 TJoinRet == Ev.e = "JoinRet" /\ JoinRet(Ev.thr, Ev.rc)
-TJoinAllBegin == Ev.e = "JoinAllBegin" /\ JoinAllBegin(Ev.t)
+TSelfJoin == Ev.e = "SelfJoin" /\ SelfJoin(Ev.thr, Ev.rc) /\ UNCHANGED jvars
+TCount == /\ Ev.e \in {"CountIncBegin", "CountIncEnd", "CountDecBegin", "CountDecEnd"}
+          /\ CASE Ev.e = "CountIncBegin" -> CountStep(Ev.thr, "no", "pending")
+               [] Ev.e = "CountIncEnd" -> CountStep(Ev.thr, "pending", "in")
+               [] Ev.e = "CountDecBegin" -> CountStep(Ev.thr, "in", "out")
+               [] OTHER -> CountStep(Ev.thr, "out", "done")
+TJoinAllBegin == Ev.e = "JoinAllBegin" /\ snap' = {i \in Thr : part[i] = "in"} /\ part' = part /\ JoinAllBegin(Ev.t)
 TSetJoinTimeout == Ev.e = "SetJoinTimeout" /\ SetJoinTimeout(Ev.ns)
 TReInit == Ev.e = "ReInit" /\ UNCHANGED tvars     \* initialising the library again changes nothing observable
-TJoinAllRet == Ev.e = "JoinAllRet" /\ JoinAllRet(Ev.rc, Ev.count, Ev.t)
+TJoinAllRet == Ev.e = "JoinAllRet" /\ JoinAllRet(Ev.rc, Ev.count, Ev.t, Ev.uj)
 TOnceRan == Ev.e = "OnceRan" /\ OnceRan(Ev.n, Ev.argok)
 TOnceEnd == Ev.e = "OnceEnd" /\ OnceEnd(Ev.n)
 TOnceRet == Ev.e = "OnceRet" /\ OnceRet(Ev.n)
@@ -30,7 +37,8 @@ TSelfView == Ev.e = "SelfView" /\ SelfView(Ev.thr, Ev.ideq, Ev.idmain, Ev.named,
 TEnd == Ev.e = "End" /\ EndOk(Ev.live, Ev.unjoined)
 
 TNext == l <= TraceLen /\ l' = l + 1 /\ (Ev.e \notin {"Reset", "JoinAllBegin", "SetJoinTimeout"} => UNCHANGED jvars) /\
-         (TReset \/ TSetup \/ TLaunch \/ TLaunchRet \/ TFnRan \/ TAtExitReg \/ TFnEnd \/ TAtExit \/ TJoinRet
+         (Ev.e \notin {"Reset", "JoinAllBegin", "CountIncBegin", "CountIncEnd", "CountDecBegin", "CountDecEnd"} => UNCHANGED pvars) /\
+         (TReset \/ TSetup \/ TLaunch \/ TLaunchRet \/ TFnRan \/ TAtExitReg \/ TFnEnd \/ TAtExit \/ TJoinRet \/ TSelfJoin \/ TCount
             \/ TJoinAllBegin \/ TSetJoinTimeout \/ TReInit \/ TJoinAllRet \/ TOnceRan \/ TOnceEnd \/ TOnceRet \/ TSelfView \/ TEnd)
-TSpec == (l = 1 /\ TInit0 /\ jto = WZero /\ jt0 = WZero) /\ [][TNext]_<<tvars, jvars, l>>
+TSpec == (l = 1 /\ TInit0 /\ jto = WZero /\ jt0 = WZero /\ part = [i \in Thr |-> "no"] /\ snap = {}) /\ [][TNext]_<<tvars, jvars, pvars, l>>
 =============================================================================
